@@ -309,7 +309,19 @@ func c11One(c *fw.Ctx, cs c11Case) {
 	c11SetLines(hdr, "Upgrade", cs.Upgrade)
 	c11SetLines(hdr, "Sec-Websocket-Version", cs.Version)
 	c11SetLines(hdr, "Sec-Websocket-Key", cs.Key)
+	rawKeyName := cs.Idx%7 == 3 && cs.Key != nil
+	if rawKeyName {
+		// a header map built by hand (a test, a proxy, an adapter from another server
+		// framework): the key sits under the RFC's own spelling of the field name
+		delete(hdr, "Sec-Websocket-Key")
+		hdr["Sec-WebSocket-Key"] = append([]string(nil), cs.Key...)
+	}
 	c11SetLines(hdr, "Sec-Websocket-Protocol", cs.Offered)
+	if cs.Idx%2 == 1 {
+		// a browser also names its origin; a same-host origin is authorised and has no
+		// bearing on whether the request is a valid handshake
+		hdr["Origin"] = []string{"https://example.com"}
+	}
 	r := c11Request(cs.Method, cs.Proto, cs.Major, cs.Minor, "example.com", hdr)
 	w := c11NewWriter()
 
@@ -341,6 +353,12 @@ func c11One(c *fw.Ctx, cs c11Case) {
 		// must not have touched the connection, must have answered with an error status
 		if w.hijacks != 0 {
 			c.Violate("C11/hijacked-on-refusal", fmt.Sprintf("%+v: Accept returned no connection (err=%v) but called Hijack %d time(s)", cs, err, w.hijacks), cs)
+			return
+		}
+		if len(failed) == 0 && rawKeyName {
+			// a field name the header map does not hold in canonical form may be invisible to
+			// the endpoint; only the answer to an accepted request is judged
+			c.OutcomeStr(fmt.Sprintf("refused %d raw-key-name", w.status))
 			return
 		}
 		if len(failed) == 0 && c11NonCanonicalKey(cs.Key) {
